@@ -162,6 +162,9 @@ var cardPool = []uint32{0, 1, 0xffffffff, 0x00ffffff, 0x00fffffe, 0x01000000, 81
 // set by the card-number sweep: PutCard is generated with this card number
 var forceCardNo *uint32
 
+// set by the format-list sweep: PutCard is generated with exactly this list of card formats
+var forceFormats []types.CardFormat
+
 func genCardNo(r *Rand) uint32 {
 	switch r.Intn(6) {
 	case 0, 1:
@@ -379,6 +382,13 @@ func genOp(r *Rand, which int, id uint32, edge bool) OpCase {
 		nf := r.Intn(3)
 		if edge {
 			nf = r.Intn(4)
+		}
+		if forceFormats != nil {
+			nf = 0
+			for _, f := range forceFormats {
+				formats = append(formats, f)
+				fcoq = append(fcoq, fmt.Sprintf("%d", f))
+			}
 		}
 		for i := 0; i < nf; i++ {
 			f := types.CardFormat(r.Intn(2))
